@@ -251,7 +251,7 @@ PROPS = {
     ),
     'C10': dict(
         level='proof',
-        verus_units=['broker_bus_listener', 'broker_handlers_bus_listener'],
+        verus_units=['broker_bus_listener', 'broker_handlers_bus_listener', 'client_bus_listener'],
         kani=[dict(package='aldrin-core', injections=[KANI_CORE_BUS], jobs=4)],
         trusted_base=TB_VERUS + TB_KANI + ['BusListenerFilter is an opaque hashable key in the Verus unit (key-model axiom)'],
         assumptions=['BusListener::{matches_object, matches_service, matches_new_event} are verified against the plain filter '
